@@ -37,6 +37,8 @@ def cell_xml(cell, column_attribute=None):
         attributes = ' table:number-columns-repeated="%d"' % cell["rep"]
     # a comment on the cell: an annotation element in front of the cell's own paragraphs (its paragraph is not cell text)
     note = '<office:annotation><text:p>a note<text:s/>on the cell</text:p></office:annotation>' if cell.get("note") else ""
+    if cell.get("covered"):
+        return "<table:covered-table-cell%s/>" % attributes  # the hidden part of a merged range
     if not cell["paras"]:
         return ("<table:table-cell%s>%s</table:table-cell>" % (attributes, note)) if note else "<table:table-cell%s/>" % attributes
     paragraphs = "".join("<text:p>%s</text:p>" % "".join(piece_xml(p) for p in paragraph) for paragraph in cell["paras"])
@@ -54,8 +56,14 @@ def row_xml(row, row_attribute=None, column_attribute=None):
 
 
 def sheet_xml(name, rows, row_attribute=None, column_attribute=None):
-    body = "".join(row_xml(row, row_attribute if index == 0 else None, column_attribute if index == 0 else None)
-                   for index, row in enumerate(rows))
+    parts = [(row.get("wrap", "none"), row_xml(row, row_attribute if index == 0 else None, column_attribute if index == 0 else None))
+             for index, row in enumerate(rows)]
+    # rows to repeat on every page sit in table:table-header-rows, grouped rows in a table:table-row-group
+    header = "".join(xml for wrap, xml in parts if wrap == "header")
+    group = "".join(xml for wrap, xml in parts if wrap == "group")
+    plain = "".join(xml for wrap, xml in parts if wrap == "none")
+    body = ("<table:table-header-rows>%s</table:table-header-rows>" % header if header else "") + (
+        "<table:table-row-group>%s</table:table-row-group>" % group if group else "") + plain
     return '<table:table table:name="%s"><table:table-column/>%s</table:table>' % (name, body)
 
 
